@@ -1,6 +1,6 @@
 use super::*;
 use crate::logging;
-use std::sync::{
+use crate::vsync::{
     atomic::{AtomicU64, Ordering},
     Arc, Mutex,
 };
